@@ -317,6 +317,10 @@ func TestGovcBoundedC02Parse(t *testing.T) {
 		{"pattern \"[a-z]+\" { error-message \"no \\d\"; }", "", ""},
 		{"pattern \"\\d\" { x { y \"\\q\"; } }", "", ""},
 		{"pattern \"\\d\"; description \"\\d\";", "", ""},
+		{"a /*/ b;", "", ""}, // the '*' of a comment opener is not the '*' of the closer: unterminated
+		{"a /*/ b; */ c;", "a", "c"},
+		{"a /**/ b;", "a", "b"},
+		{"a /***/ b;", "a", "b"},
 		{"units +/-1;", "units", "+/-1"},
 		{"+/a;", "+/a", ""},
 	}
@@ -337,5 +341,5 @@ func TestGovcBoundedC02Parse(t *testing.T) {
 			fmt.Printf("GOVC-FAIL name=c02-forest %q parses as %s (%v), expected %s %q\n", f.text, got, err, f.kw, f.arg)
 		}
 	}
-	fmt.Printf("GOVC-BOUNDED name=c02-forest-round-trip bound=%d_generated_forests_written_in_random_RFC_6.1.3_spellings_(seed_%d),_each_also_damaged_once,_+_15_fixed_cases evaluations=%d distinct=%d\n", texts, seed, evals, stmts)
+	fmt.Printf("GOVC-BOUNDED name=c02-forest-round-trip bound=%d_generated_forests_written_in_random_RFC_6.1.3_spellings_(seed_%d),_each_also_damaged_once,_+_19_fixed_cases evaluations=%d distinct=%d\n", texts, seed, evals, stmts)
 }
